@@ -18,6 +18,7 @@
 # the LICENSES folder.
 
 from inspect import (
+    Parameter,
     Signature,
     signature,
 )
@@ -61,7 +62,13 @@ def _initialize_window_functions():
 
         if not ("M" in sig.parameters and "sym" in sig.parameters):
             continue
-        elif len(sig.parameters) > 2:
+        elif any(
+            p.kind is not Parameter.KEYWORD_ONLY and p.name not in ("M", "sym")
+            for p in sig.parameters.values()
+        ):
+            # Skip window functions that require additional parameters (e.g.,
+            # 'kaiser'). Optional keyword-only parameters (e.g., 'xp' and
+            # 'device' in newer versions of SciPy) do not count.
             continue
 
         _WINDOW_FUNCTIONS[name] = func
